@@ -403,7 +403,7 @@ def check_are_named(repo: Repo, res: Result) -> FuncInfo | None:
     return receiver
 
 
-def _flatten_loops(view: FuncInfo, loops: list, cnds: list, rounds: int = 4) -> tuple[list, list]:
+def _flatten_loops(view: FuncInfo, loops: list, cnds: list, rounds: int = 4, alias: dict | None = None) -> tuple[list, list]:
     """Rewrites the innermost loop when it ranges over an intermediate collection, so that two-step constructions
     (`filters = [m for l in layers for m in A[l]]`, `chain.from_iterable(A[l] for l in layers)`) read like the nested loops."""
     loops, cnds = list(loops), list(cnds)
@@ -429,7 +429,13 @@ def _flatten_loops(view: FuncInfo, loops: list, cnds: list, rounds: int = 4) -> 
             prods = productions(view, src)
             if len(prods) == 1 and prods[0].elt is not None and prods[0].loops:
                 q = prods[0]
-                if isinstance(q.elt, ast.Name) and q.elt.id in target_names(q.loops[-1][0]) and isinstance(q.loops[-1][0], ast.Name):
+                if alias is not None and isinstance(q.elt, ast.Tuple) and isinstance(t, ast.Tuple) and len(t.elts) == len(q.elt.elts) and all(isinstance(x, ast.Name) for x in t.elts):
+                    # `for name, flag in specs` over `specs = [(m.identifier, m.identifier_is_regex) for ...]`: the targets stand for
+                    # the components of the inner element
+                    for x, v in zip(t.elts, q.elt.elts):
+                        alias[x.id] = v
+                    loops = loops[:-1] + q.loops
+                elif isinstance(q.elt, ast.Name) and q.elt.id in target_names(q.loops[-1][0]) and isinstance(q.loops[-1][0], ast.Name):
                     loops = loops[:-1] + q.loops[:-1] + [(t, q.loops[-1][1])]
                 else:
                     loops = loops[:-1] + q.loops + [(t, ast.List(elts=[q.elt], ctx=ast.Load()))]
@@ -442,6 +448,10 @@ def _flatten_loops(view: FuncInfo, loops: list, cnds: list, rounds: int = 4) -> 
         ifs = [(c, True) for g in comp.generators for c in g.ifs]
         if flat:
             loops = loops[:-1] + gens + [(t, comp.elt)]
+        elif alias is not None and isinstance(comp.elt, ast.Tuple) and isinstance(t, ast.Tuple) and len(t.elts) == len(comp.elt.elts) and all(isinstance(x, ast.Name) for x in t.elts):
+            for x, v in zip(t.elts, comp.elt.elts):
+                alias[x.id] = v
+            loops = loops[:-1] + gens
         elif isinstance(comp.elt, ast.Name) and isinstance(gens[-1][0], ast.Name) and comp.elt.id == gens[-1][0].id:
             loops = loops[:-1] + gens[:-1] + [(t, gens[-1][1])]
         else:
@@ -453,7 +463,12 @@ def _flatten_loops(view: FuncInfo, loops: list, cnds: list, rounds: int = 4) -> 
 def _judge_lowering(repo: Repo, T, view: FuncInfo, p: Production, layers_param: str | None) -> tuple[str, str]:
     pv = p.view or view
     elt = p.elt
-    loops, cnds = _flatten_loops(pv, p.loops, p.conds)
+    alias: dict[str, ast.expr] = {}
+    loops, cnds = _flatten_loops(pv, p.loops, p.conds, alias=alias)
+    if alias:
+        from .c05_views import substitute
+
+        elt = substitute(elt, alias)
     if not loops:
         return "undecided", f"`{norm(elt, 60)}` is not produced per module filter of a layer"
     # innermost loop: the module filter
@@ -529,7 +544,7 @@ def _judge_lowering(repo: Repo, T, view: FuncInfo, p: Production, layers_param: 
         return "undecided", f"{len(outer)} loops around the module-filter loop (expected one loop over the named layers)"
     lt, lit = outer[0]
     # conditions that can drop an element
-    loop_vars = layer_vars | mvars
+    loop_vars = layer_vars | mvars | set(alias)
     filters = [c for c, pol in cnds if names_in(c) & loop_vars and cond_origin(pv, c) == "filter"]
     if filters:
         return "violated", f"`{norm(filters[0], 60)}` decides whether a module filter of a named layer is lowered at all: named layers (or some of their modules) can be dropped silently"
